@@ -5,6 +5,7 @@ package meta
 import (
 	"errors"
 	"fmt"
+	"math/big"
 	"regexp"
 	"sort"
 	"strconv"
@@ -1489,13 +1490,68 @@ func (n RangeNumber) getFloat64() float64 {
 	panic("invalid number range comparison")
 }
 
+func (n RangeNumber) hasNumber() bool {
+	return n.integer != nil || n.unsigned != nil || n.float != nil
+}
+
+func (n RangeNumber) rat() *big.Rat {
+	switch {
+	case n.integer != nil:
+		return new(big.Rat).SetInt64(*n.integer)
+	case n.unsigned != nil:
+		return new(big.Rat).SetInt(new(big.Int).SetUint64(*n.unsigned))
+	case n.float != nil:
+		if r := new(big.Rat).SetFloat64(*n.float); r != nil {
+			return r
+		}
+	}
+	return new(big.Rat)
+}
+
+// resolveRangeKeywords gives the min and max keywords that are an alternative of
+// their own ("min | 5..10") the number they stand for: the lowest and highest
+// value the restriction below allows. levels holds the range of the type first,
+// then those of the typedefs it derives from, lo and hi are the limits of the
+// built-in type.
+func resolveRangeKeywords(levels []*Range, lo, hi RangeNumber) {
+	for i := len(levels) - 1; i >= 0; i-- {
+		var nextLo, nextHi *RangeNumber
+		for _, e := range levels[i].Entries {
+			if e.Exact.isMin {
+				e.Exact.integer, e.Exact.unsigned, e.Exact.float = lo.integer, lo.unsigned, lo.float
+			} else if e.Exact.isMax {
+				e.Exact.integer, e.Exact.unsigned, e.Exact.float = hi.integer, hi.unsigned, hi.float
+			}
+			l, h := e.Min, e.Max
+			if !e.Exact.Empty() {
+				l, h = e.Exact, e.Exact
+			}
+			if !l.hasNumber() {
+				l = lo
+			}
+			if !h.hasNumber() {
+				h = hi
+			}
+			if nextLo == nil || l.rat().Cmp(nextLo.rat()) < 0 {
+				nextLo = &l
+			}
+			if nextHi == nil || h.rat().Cmp(nextHi.rat()) > 0 {
+				nextHi = &h
+			}
+		}
+		if nextLo != nil {
+			lo, hi = *nextLo, *nextHi
+		}
+	}
+}
+
 func (n RangeNumber) Compare(v val.Value) (int64, error) {
 	// the keywords stand for the lowest and highest value the base type allows, which
 	// no value of that type is outside of
-	if n.isMin {
+	if n.isMin && !n.hasNumber() {
 		return -1, nil
 	}
-	if n.isMax {
+	if n.isMax && !n.hasNumber() {
 		return 1, nil
 	}
 	if v.Format().IsList() {
